@@ -72,6 +72,8 @@ impl Source for FileSource {
         let mut f = self.lock().unwrap();
         // TODO: Use `read_at`/`seek_read`
         f.seek(SeekFrom::Start(offset.into_u64()))?;
+        #[cfg(jubako_verif)]
+        crate::verif::point("file_seek_then_read", offset.into_u64(), 0);
         f.read(buf)
     }
 
@@ -79,6 +81,8 @@ impl Source for FileSource {
         let mut f = self.lock().unwrap();
         // TODO: Use `read_at`/`seek_read`
         f.seek(SeekFrom::Start(offset.into_u64()))?;
+        #[cfg(jubako_verif)]
+        crate::verif::point("file_seek_then_read", offset.into_u64(), 1);
         f.read_exact(buf)
     }
 
@@ -111,6 +115,8 @@ impl Source for FileSource {
             let mut f = self.lock().unwrap();
             let mut buf = Vec::with_capacity(full_size.into_usize());
             f.seek(SeekFrom::Start(region.begin().into_u64()))?;
+            #[cfg(jubako_verif)]
+            crate::verif::point("file_seek_then_read", region.begin().into_u64(), 2);
             f.by_ref()
                 .take(full_size.into_u64())
                 .read_to_end(&mut buf)?;
